@@ -127,6 +127,11 @@ func c01Gen(g *core.Gen, emit func(*p2Case)) {
 		cfg := scen.P2Config{Sizes: []int{13, 8, 6}, Slice: 4, Blocks: 4, Class: class, G: 3, Names: []string{"d/e/f0", "f 1", "d/f2"}}
 		genP2Deviations(g, cfg, false, 2, mk(cfg, 3))
 	}
+	// sets written by an Encoder object on its second cycle (the staged API behind Create): every single damage, and
+	// pairs on the first set
+	for i, rc := range []scen.P2Config{{Sizes: []int{11, 6}, Slice: 4, Blocks: 3, Class: "uniq", Reused: true}, {Sizes: []int{20000, 17001}, Slice: 1000, Blocks: 3, Class: "uniq", G: 2, Reused: true}} {
+		genP2Deviations(g, rc, i == 0, 2-i, mk(rc, 1))
+	}
 	dup := scen.P2Config{Sizes: []int{9, 9}, Slice: 4, Blocks: 3, Class: "uniq", DupFile: true}
 	genP2Deviations(g, dup, true, 1, mk(dup, 1))
 	coll := scen.P2Config{Sizes: []int{27, 20}, Slice: 8, Blocks: 3, Class: "crccollide"}
